@@ -51,6 +51,8 @@ type ScriptedSource struct {
 	starts    int
 	// sampleErr, if set, makes the next Sample() fail (hardware not sending yet).
 	sampleErr error
+	// geomRows > 0 lays the channels out column-major on a rows x cols array.
+	geomRows int
 }
 
 // NewScriptedSource creates a scripted source with nchan channels at the given rate.
@@ -78,6 +80,9 @@ func (ss *ScriptedSource) Sample() error {
 		ss.chanNames[i] = fmt.Sprintf("chan%d", i+1)
 		ss.chanNumbers[i] = i + 1
 		ss.rowColCodes[i] = rcCode(0, i, 1, ss.nchan)
+		if ss.geomRows > 0 {
+			ss.rowColCodes[i] = rcCode(i%ss.geomRows, i/ss.geomRows, ss.geomRows, (ss.nchan+ss.geomRows-1)/ss.geomRows)
+		}
 	}
 	return nil
 }
@@ -86,6 +91,11 @@ func (ss *ScriptedSource) Sample() error {
 func (ss *ScriptedSource) StartRun() error {
 	ss.starts++
 	ss.delivered = 0
+	if ss.geomRows > 0 && ss.subframeDivisions > 1 {
+		for i := range ss.subframeOffsets {
+			ss.subframeOffsets[i] = (i % ss.geomRows) % ss.subframeDivisions
+		}
+	}
 	go func() {
 		for {
 			select {
